@@ -6,11 +6,12 @@
 package main
 
 import (
-	"runtime"
 	"fmt"
+	"runtime"
 	"sort"
 	"strings"
 	"syscall/js"
+	"unicode/utf8"
 
 	"github.com/gdamore/tcell/v2"
 
@@ -161,7 +162,9 @@ func (d *dsys) Key() string {
 	for k := range pg.cells {
 		keys = append(keys, k)
 	}
-	sort.Slice(keys, func(i, j int) bool { return keys[i][1] < keys[j][1] || (keys[i][1] == keys[j][1] && keys[i][0] < keys[j][0]) })
+	sort.Slice(keys, func(i, j int) bool {
+		return keys[i][1] < keys[j][1] || (keys[i][1] == keys[j][1] && keys[i][0] < keys[j][0])
+	})
 	for _, k := range keys {
 		c := pg.cells[k]
 		fmt.Fprintf(&sb, "%v:%q,%d,%d,%d,%d,%d;", k, c.s, c.fg, c.bg, c.attrs, c.us, c.uc)
@@ -263,7 +266,7 @@ func (d *dsys) compare(o op, full bool) string {
 			r, wd := shadow.Shown(sc.R)
 			var comb []rune
 			for _, c := range sc.Comb {
-				if !(c < ' ' || (c >= 0x7f && c < 0xa0)) { // control characters are no combining marks: not shown
+				if !(c < ' ' || (c >= 0x7f && c < 0xa0) || c == 0x2028 || c == 0x2029 || !utf8.ValidRune(c) || (c >= 0xfdd0 && c <= 0xfdef) || c&0xfffe == 0xfffe) { // control characters, line separators and non-characters are no combining marks: not shown
 					comb = append(comb, c)
 				}
 			}
@@ -336,7 +339,7 @@ func draws() {
 		for x := 0; x < 4; x++ {
 			ops = append(ops, op{kind: "set", x: x, r: 'a'}, op{kind: "set", x: x, r: '世', st: 1})
 		}
-		ops = append(ops, op{kind: "set", x: 2, r: 'e', comb: []rune{0x0301}}, op{kind: "set", x: 1, r: 'b', comb: []rune{'\n', 0x0301, 0x9b}}, op{kind: "set", x: 0, r: 0x1b}, op{kind: "fill", r: 'b', st: 2}, op{kind: "clear"}, show, sync, op{kind: "suspendresume"})
+		ops = append(ops, op{kind: "set", x: 2, r: 'e', comb: []rune{0x0301}}, op{kind: "set", x: 1, r: 'b', comb: []rune{'\n', 0x0301, 0x9b, 0xd800, 0x2028, 0xfffe}}, op{kind: "set", x: 0, r: 0x1b}, op{kind: "fill", r: 'b', st: 2}, op{kind: "clear"}, show, sync, op{kind: "suspendresume"})
 		scen["W-wide-4x1"] = ops
 	}
 	{
@@ -358,7 +361,7 @@ func draws() {
 			d = 5
 		}
 		cfg := &seq.Config{Name: name, NOps: len(ops), Depth: d, OpName: func(i int) string { return ops[i].String() },
-			New: func() seq.Sys { return &dsys{s: newScreen(wd, ht), sh: shadow.New(wd, ht), ops: ops} },
+			New:  func() seq.Sys { return &dsys{s: newScreen(wd, ht), sh: shadow.New(wd, ht), ops: ops} },
 			Mine: hc.Mine, Shard0: *hc.Shard == 0, ShardDepth: 2, Stop: w.Expired, MaxViolationSigs: 8,
 			OnViolation: func(sig, desc string, hist []int) {
 				var names []string
@@ -924,6 +927,7 @@ func main() {
 	inputs()
 	pageInputs()
 	pageCursorSequences()
+	pageClearColours()
 	lifecycle()
 	modes()
 	fullQueue()
